@@ -1112,3 +1112,52 @@ def chain_synthetic(rng, count):
             rng.shuffle(segs)
         mult = rng.choice(["1", "1", "1/2", "2", "1/4"])
         yield f"CHAIN {pstr(P)} mult={mult} var={rng.choice([0, 1, 1])} SEG={';'.join(segs)}"
+
+
+def resolverows_crossref(rng, count):
+    """the rows of ONE query on DIFFERENT references (a translocated / chimeric molecule): same strand, near-by
+    coordinates, collinear site ids — everything that makes a join look eligible except the reference"""
+    import re
+    made = 0
+    for line in resolverows_random(rng, count * 3):
+        rows = line.split("ROWS=", 1)[1].split("^")
+        if len(rows) < 2:
+            continue
+        k = rng.randrange(len(rows))
+        rows[k] = re.sub(r"(^|~)r=(\d+)", lambda m: f"{m.group(1)}r={int(m.group(2)) + 1 + rng.randrange(2)}", rows[k], count=1)
+        yield line.split("ROWS=", 1)[0] + "ROWS=" + "^".join(rows)
+        made += 1
+        if made >= count:
+            return
+
+
+def joinrows_unpaired_edges(rng, count):
+    """a first-pass part whose only segment BEGINS (or ends) with unpaired labels and whose pairs are all claimed — on the
+    query side — by a better-scoring second-pass part: after the join's conflict resolution the first part keeps
+    positions but no pair (a non-empty, pair-less first segment of the joined record)"""
+    P = dict(DEFAULT_P)
+    for _ in range(count):
+        rev = rng.randrange(2)
+        na = rng.randrange(1, 4)
+        extra = rng.randrange(1, 4)
+        step = rng.randrange(3000, 9000)
+        q0 = rng.randrange(3, 20)
+
+        def qs(j):       # query site / coordinate of the j-th query label used, strand aware
+            return ((q0 + 40 - j) if rev else (q0 + j)), 10000 + j * step
+        lead = rng.randrange(1, 3)
+        pa = [(10 + j, 100000 + j * step) + qs(j) + (rng.randrange(300, 900),) for j in range(na)]
+        pb = [(60 + j, 400000 + j * step) + qs(j) + (0,) for j in range(na + extra)]
+        items_a = [f"R:{10 - lead + i}:{100000 - (lead - i) * 2000}" for i in range(lead)] if rng.random() < 0.7 else \
+                  [f"Q:{qs(-1 - i)[0]}:{qs(-1 - i)[1]}:0" for i in range(lead)]
+        items_a += [f"P:{a}:{b}:{c}:{d}:{e}" for a, b, c, d, e in pa]
+        if rng.random() < 0.3:
+            items_a.append(f"R:{10 + na}:{100000 + na * step - 1000}")
+        conf_a = sum(1000 - abs(e) for *_, e in pa) - 250 * (len(items_a) - len(pa))
+        fa, la = pa[0], pa[-1]
+        qsa, qea = (la[3], fa[3]) if rev else (fa[3], la[3])
+        a = (f"q=7~r=1~ql=200001~rl=900001~qs={qsa}~qe={qea}~rs={fa[1]}~re={la[1]}~rev={rev}~conf={conf_a}~rest=0~SEG=0|" + ",".join(items_a))
+        b = _synthetic_row(300000, pb, rev=rev, rest=1)
+        if rng.random() < 0.3:
+            a, b = b.replace("rest=1", "rest=0"), a.replace("rest=0", "rest=1")
+        yield f"JOINROWS {pstr(P)} A={a} B={b}"
